@@ -10,21 +10,21 @@ open Manticore
 open Manticore.Gen
 
 open SmbDate in
-/-- `SMB_DATE.Marshal`: `(Year-1980)<<9 | Month<<5 | Day` -/
+-- `SMB_DATE.Marshal`: `(Year-1980)<<9 | Month<<5 | Day`
 theorem consts_match_model_date_pack (d : SmbDate.V) :
     SmbDate.pack d =
     (
       ((d.year - UInt16.ofNat ConstsC06.date_year_base) <<< UInt16.ofNat ConstsC06.date_year_shift) ||| (d.month.toUInt16 <<< UInt16.ofNat ConstsC06.date_month_shift) ||| d.day.toUInt16) := by exact rfl
 
 open SmbDate in
-/-- `SMB_DATE.Unmarshal`: the three masks, the two shifts, the base year -/
+-- `SMB_DATE.Unmarshal`: the three masks, the two shifts, the base year
 theorem consts_match_model_date_unpack (w : UInt16) :
     SmbDate.unpack w =
     (
       ⟨((w &&& UInt16.ofNat ConstsC06.date_uyear_mask) >>> UInt16.ofNat ConstsC06.date_uyear_shift) + UInt16.ofNat ConstsC06.date_ubase_base, ((w &&& UInt16.ofNat ConstsC06.date_umonth_mask) >>> UInt16.ofNat ConstsC06.date_umonth_shift).toUInt8, (w &&& UInt16.ofNat ConstsC06.date_uday_mask).toUInt8⟩) := by exact rfl
 
 open SmbDate in
-/-- `SMB_DATE.Unmarshal`: minimum length and bytes consumed -/
+-- `SMB_DATE.Unmarshal`: minimum length and bytes consumed
 theorem consts_match_model_date_decode (b : Bytes) :
     SmbDate.decode b =
     (
@@ -40,7 +40,7 @@ theorem consts_match_model_date_layout :
       ∧ ConstsC06.date_value_shape = "(| (| valueYear valueMonth) valueDay)" := ⟨rfl, rfl, rfl, rfl⟩
 
 open SmbString in
-/-- `SMB_STRING.Marshal`: which format code takes which layout -/
+-- `SMB_STRING.Marshal`: which format code takes which layout
 theorem consts_match_model_string_marshal (s : SmbString.V) :
     SmbString.marshal s =
     (
@@ -58,7 +58,7 @@ theorem consts_match_model_string_marshal (s : SmbString.V) :
           .ok (s.format :: (putLe16 len ++ s.buffer ++ [0]), { s with length := len })
       else .err) := by exact rfl
 
-/-- `SMB_STRING.Marshal`: what each case appends, in order (format, 16-bit length, bytes, terminator) and the length limit -/
+-- `SMB_STRING.Marshal`: what each case appends, in order (format, 16-bit length, bytes, terminator) and the length limit
 theorem consts_match_model_string_marshal_order :
     [ConstsC06.str_m1_appends, ConstsC06.str_m2_appends, ConstsC06.str_m3_appends, ConstsC06.str_m4_appends, ConstsC06.str_m5_appends]
       = [["s.BufferFormat", "buf2", "s.Buffer"], ["s.BufferFormat", "s.Buffer", "0x00"], ["s.BufferFormat", "buf2", "s.Buffer", "0x00"],
@@ -66,7 +66,7 @@ theorem consts_match_model_string_marshal_order :
       ∧ ConstsC06.str_tooLong_shape = "(> (len s.Buffer) math.MaxUint16)" := ⟨rfl, rfl⟩
 
 open SmbString in
-/-- the length-prefixed formats of `SMB_STRING.Unmarshal`: minimum length 3, the length at [1:3], the body from 3 -/
+-- the length-prefixed formats of `SMB_STRING.Unmarshal`: minimum length 3, the length at [1:3], the body from 3
 theorem consts_match_model_string_decodeCounted (f : UInt8) (b : Bytes) (extra : Nat) :
     SmbString.decodeCounted f b extra =
     (
@@ -83,7 +83,7 @@ theorem consts_match_model_string_decodeCounted (f : UInt8) (b : Bytes) (extra :
         | .err => .err
         | .panic => .panic) := by exact rfl
 
-/-- the three length-prefixed cases use the same numbers; format 3 additionally counts its terminator (`extra = 1`) -/
+-- the three length-prefixed cases use the same numbers; format 3 additionally counts its terminator (`extra = 1`)
 theorem consts_match_model_string_counted_alike :
     [ConstsC06.str_f3_minLen, ConstsC06.str_f3_len_lo, ConstsC06.str_f3_len_hi, ConstsC06.str_f3_need_base, ConstsC06.str_f3_copy_lo,
      ConstsC06.str_f3_copy_base, ConstsC06.str_f3_consumed_base]
@@ -98,7 +98,7 @@ theorem consts_match_model_string_counted_alike :
       ∧ [ConstsC06.str_f1_len_le, ConstsC06.str_f3_len_le, ConstsC06.str_f5_len_le] = [true, true, true] := by decide
 
 open SmbString in
-/-- the NUL-terminated formats: the scan starts at 1, the body is `[1:nullPos]`, `nullPos+1` bytes are consumed -/
+-- the NUL-terminated formats: the scan starts at 1, the body is `[1:nullPos]`, `nullPos+1` bytes are consumed
 theorem consts_match_model_string_decodeTerminated (f : UInt8) (b : Bytes) :
     SmbString.decodeTerminated f b =
     (
@@ -117,7 +117,7 @@ theorem consts_match_model_string_terminated_alike :
       ∧ ConstsC06.str_f2_terminator = 0 ∧ ConstsC06.str_f2_make_minus = ConstsC06.str_f2_copy_lo := by decide
 
 open SmbString in
-/-- `SMB_STRING.Unmarshal`: the dispatch on the format byte -/
+-- `SMB_STRING.Unmarshal`: the dispatch on the format byte
 theorem consts_match_model_string_decode (b : Bytes) :
     SmbString.decode b =
     (
@@ -142,7 +142,7 @@ theorem consts_match_model_string_formats :
            "SMB_STRING_BUFFER_FORMAT_VARIABLE_BLOCK"] := ⟨by decide, rfl⟩
 
 open ResumeKey in
-/-- `SMB_RESUME_KEY.Unmarshal`: 21 bytes = reserved [0], server state [1:17], client state [17:21] -/
+-- `SMB_RESUME_KEY.Unmarshal`: 21 bytes = reserved [0], server state [1:17], client state [17:21]
 theorem consts_match_model_resumeKey_decode (b : Bytes) :
     ResumeKey.decode b =
     (
@@ -160,7 +160,7 @@ theorem consts_match_model_resumeKey_decode (b : Bytes) :
       | .panic => .panic) := by exact rfl
 
 open DirInfo in
-/-- `SMB_DIRECTORY_INFORMATION.Marshal`: names are padded to 12 bytes -/
+-- `SMB_DIRECTORY_INFORMATION.Marshal`: names are padded to 12 bytes
 theorem consts_match_model_dirInfo_padName (n : Bytes) :
     DirInfo.padName n =
     (
@@ -171,7 +171,7 @@ theorem consts_match_model_dirInfo_name :
       ∧ ConstsC06.dir_nameSlice_len = ConstsC06.dir_namePad_to + 2 := by decide
 
 open DirInfo in
-/-- `SMB_DIRECTORY_INFORMATION.Unmarshal`: the length checks and windows of date (2), size (4) and name (14) -/
+-- `SMB_DIRECTORY_INFORMATION.Unmarshal`: the length checks and windows of date (2), size (4) and name (14)
 theorem consts_match_model_dirInfo_decode (data : Bytes) :
     DirInfo.decode data =
     (
@@ -201,7 +201,7 @@ theorem consts_match_model_dirInfo_decode (data : Bytes) :
       pure (⟨rk, attr, t, dt, size, fn⟩, offset)) := by exact rfl
 
 open Range32 in
-/-- `LOCKING_ANDX_RANGE32.Unmarshal`: 10 bytes = PID [0:2], offset [2:6], length [6:10] -/
+-- `LOCKING_ANDX_RANGE32.Unmarshal`: 10 bytes = PID [0:2], offset [2:6], length [6:10]
 theorem consts_match_model_range32_decode (b : Bytes) :
     Range32.decode b =
     (
@@ -215,7 +215,7 @@ theorem consts_match_model_range32_decode (b : Bytes) :
         | _, _, _ => .err) := by exact rfl
 
 open FileTime in
-/-- `FILETIME.Unmarshal`: 8 bytes = low [0:4], high [4:8] -/
+-- `FILETIME.Unmarshal`: 8 bytes = low [0:4], high [4:8]
 theorem consts_match_model_fileTime_decode (b : Bytes) :
     FileTime.decode b =
     (
@@ -228,7 +228,7 @@ theorem consts_match_model_fileTime_decode (b : Bytes) :
         | _, _ => .err) := by exact rfl
 
 open FileAttributes in
-/-- `SMB_FILE_ATTRIBUTES.Unmarshal`: minimum length -/
+-- `SMB_FILE_ATTRIBUTES.Unmarshal`: minimum length
 theorem consts_match_model_fileAttributes_decode (b : Bytes) :
     FileAttributes.decode b =
     (
@@ -239,8 +239,8 @@ theorem consts_match_model_fileAttributes_decode (b : Bytes) :
         | .err => .err
         | .panic => .panic) := by exact rfl
 
-/-- widths and byte orders of the fixed types: little-endian everywhere except SMB_FILE_ATTRIBUTES, which the code reads
-    and writes big-endian -/
+-- widths and byte orders of the fixed types: little-endian everywhere except SMB_FILE_ATTRIBUTES, which the code reads
+-- and writes big-endian
 theorem consts_match_model_byte_orders :
     ConstsC06.r32_anyBig = false ∧ ConstsC06.ft_anyBig = false ∧ ConstsC06.fa_le = false ∧ ConstsC06.dir_size_le = true
       ∧ [ConstsC06.r32_pid_hi - ConstsC06.r32_pid_lo, ConstsC06.r32_offset_hi - ConstsC06.r32_offset_lo,
